@@ -71,6 +71,11 @@ def gen_case(r, with_extend):
 
     def denorm(cur):
         nonlocal exact
+        if r.random() < 0.25:
+            # integer-valued bounds given as Python ints / int32 arrays (odd and even ranges): -1 -> min, +1 -> max must still hold
+            mnt = map_tree(lambda _: Fraction(r.randint(-6, 6)), cur)
+            mxt = map_tree(lambda _, m: m + r.choice([1, 2, 3, 5, 8]), cur, mnt)
+            return ("denorm", mnt, mxt, r.choice(["pyint", "int32"]))
         pow2 = r.random() < 0.7
         def mn(_): return Fraction(r.randint(-24, 24), 4)
         mnt = map_tree(mn, cur)
@@ -166,7 +171,14 @@ def impl_run(cases):
     def build(d):
         k = d[0]
         if k == "identity": return rb.Identity.init()
-        if k == "denorm": return rb.Denormalize.init(to_jax(d[1]), to_jax(d[2]))
+        if k == "denorm":
+            if len(d) > 3:
+                conv = (lambda v: int(v)) if d[3] == "pyint" else (lambda v: jnp.array(int(v), dtype=jnp.int32))
+                def to_int_tree(t):
+                    if isinstance(t, dict): return {K(kk): to_int_tree(t[kk]) for kk in t}
+                    return None if t is None else conv(t)
+                return rb.Denormalize.init(to_int_tree(d[1]), to_int_tree(d[2]))
+            return rb.Denormalize.init(to_jax(d[1]), to_jax(d[2]))
         if k == "shared":
             w, fr = d[1], d[2]
             def at(p, path):
@@ -178,8 +190,8 @@ def impl_run(cases):
         if k == "chain": return rb.Chain.init(*[build(x) for x in d[1]])
     out = []
     for (T, t, has_ext) in cases:
-        tr = build(T)
         try:
+            tr = build(T)
             a = tr.apply(to_jax(t))
             res = dict(app=from_jax(a))
             if not has_ext: res["inv"] = from_jax(tr.inv(a))
@@ -190,7 +202,7 @@ def impl_run(cases):
 
 
 def has_extend(d): return d[0] == "extend" or (d[0] == "chain" and any(has_extend(x) for x in d[1]))
-def kinds(d): return {d[0]} | (set().union(*[kinds(x) for x in d[1]]) if d[0] == "chain" and d[1] else set())
+def kinds(d): return {d[0] + ("-intbounds" if d[0] == "denorm" and len(d) > 3 else "")} | (set().union(*[kinds(x) for x in d[1]]) if d[0] == "chain" and d[1] else set())
 
 
 def close(impl, model, exact):
